@@ -99,7 +99,7 @@ func ins(op string, am string, a int64, bm string, b int64) rc.Item {
 
 // family draws a warrior whose fate depends on the options.
 func family(t *rapid.T, label string, legacy bool, m, p, c, l, f int) (rc.Program, string) {
-	fams := []string{"survivor", "timer", "timer", "forkbomb", "sniper", "sniper", "suicide", "random", "random", "random"}
+	fams := []string{"survivor", "timer", "timer", "forkbomb", "sniper", "sniper", "suicide", "random", "random", "random", "splitter", "trap"}
 	fam := rapid.SampledFrom(fams).Draw(t, label+"fam")
 	var items []rc.Item
 	switch fam {
@@ -112,6 +112,12 @@ func family(t *rapid.T, label string, legacy bool, m, p, c, l, f int) (rc.Progra
 		}
 	case "forkbomb":
 		items = []rc.Item{ins("SPL", "$", 0, "$", 0), ins("DAT", "#", 0, "#", 0)}
+	case "splitter":
+		// never dies by itself; fills its process queue up to the limit
+		items = []rc.Item{ins("SPL", "$", 0, "$", 0), ins("JMP", "$", -1, "$", 0)}
+	case "trap":
+		// loops on its second cell; if anything ever executes its first cell the loop is bombed
+		items = []rc.Item{ins("MOV", "$", 2, "$", 1), ins("JMP", "$", 0, "$", 0), ins("DAT", "#", 0, "#", 0), {Kind: rc.KOrg, Expr: rc.Toks(rc.N(1))}}
 	case "timer":
 		// dies after about x + (y-1)*(m+1) cycles; aim near the cycle limit (and near a tenth of it)
 		target := c
@@ -189,10 +195,19 @@ func genCliCase(t *rapid.T) cliCase {
 		fl.C = rapid.SampledFrom([]int{0, 1, 2, 10, 100, 500, 5000, 20000}).Draw(t, "C")
 		fl.Use88 = rapid.IntRange(0, 2).Draw(t, "use88") == 0
 	}
+	manyRounds := gen.Rare(t, "manyrounds", 4)
+	if manyRounds {
+		// thousands of rounds with random placement, on a small and short battle so that it stays cheap
+		*fl = cliFlags{S: rapid.SampledFrom([]int{40, 61, 200}).Draw(t, "Ssmall"), L: 5, C: rapid.SampledFrom([]int{10, 50}).Draw(t, "Csmall"), P: rapid.SampledFrom([]int{0, 2, 8}).Draw(t, "Psmall"), Use88: rapid.Bool().Draw(t, "use88m")}
+	}
 	legacy, m, p, cyc, l := fl.expected()
-	if rapid.IntRange(0, 3).Draw(t, "randomplacement") == 0 {
+	if manyRounds {
+		fl.F = 0
+		fl.R = rapid.SampledFrom([]int{1025, 2000, 4097, 1024, 1000}).Draw(t, "Rmany")
+	} else if rapid.IntRange(0, 3).Draw(t, "randomplacement") == 0 {
 		fl.F = 0
 		fl.R = rapid.IntRange(1, 20).Draw(t, "R")
+
 	} else {
 		switch rapid.IntRange(0, 4).Draw(t, "fk") {
 		case 0:
@@ -212,6 +227,17 @@ func genCliCase(t *rapid.T) cliCase {
 	}
 	c.P1, c.Fam1 = family(t, "a", legacy, m, p, cyc, l, f)
 	c.P2, c.Fam2 = family(t, "b", legacy, m, p, cyc, l, m-f)
+	if l >= 3 && gen.Rare(t, "trapvssplitter", 3) {
+		// a warrior that dies as soon as a foreign process runs through its unused first cell,
+		// against one that fills its whole process queue: any task that strays is noticed
+		trap := rc.Program{Items: []rc.Item{ins("MOV", "$", 2, "$", 1), ins("JMP", "$", 0, "$", 0), ins("DAT", "#", 0, "#", 0), {Kind: rc.KOrg, Expr: rc.Toks(rc.N(1))}}}
+		split := rc.Program{Items: []rc.Item{ins("SPL", "$", 0, "$", 0), ins("JMP", "$", -1, "$", 0)}}
+		if rapid.Bool().Draw(t, "trapfirst") {
+			c.P1, c.Fam1, c.P2, c.Fam2 = trap, "trap", split, "splitter"
+		} else {
+			c.P1, c.Fam1, c.P2, c.Fam2 = split, "splitter", trap, "trap"
+		}
+	}
 	if l >= 3 && rapid.IntRange(0, 7).Draw(t, "sharednames") == 0 {
 		// the two files use the same identifier for different things: an EQU in one,
 		// a label in the other (each file must be assembled on its own)
@@ -360,7 +386,8 @@ func judgeCliCase(c cliCase, rec *hx.Rec) string {
 				same = false
 			}
 		}
-		simple := (c.Fam1 == "survivor" || c.Fam1 == "suicide" || c.Fam1 == "timer" || c.Fam1 == "forkbomb") && (c.Fam2 == "survivor" || c.Fam2 == "suicide" || c.Fam2 == "timer" || c.Fam2 == "forkbomb")
+		isSimple := func(f string) bool { return f == "survivor" || f == "suicide" || f == "timer" || f == "forkbomb" }
+		simple := isSimple(c.Fam1) && isSimple(c.Fam2)
 		if same && simple {
 			var want string
 			switch {
